@@ -143,6 +143,11 @@ def run(rep: Report, tier: str) -> None:
 	wattrs = [v for dct in wdicts.values() for kk, v in zip(dct.keys, dct.values) if const_str(kk) == 'attrs']
 	exp_ok = bool(wattrs) and all(any(any(kw.arg == 'iter_key' and const_str(kw.value) == 'attrs' for kw in c_.keywords) and c_.args and unparse(c_.args[0]) == f'{sparam}.attrs' for c_ in calls(v, 'seqs.expand')) and '.types.fullyname' in unparse(v) for v in wattrs)
 	ra.check(exp_ok, 'writer-expand', s.where, 'serialize no longer flattens symbol.attrs with seqs.expand(..., iter_key=\'attrs\') to type keys')
+	# every flattened path is written: the reader rebuilds the nesting from the paths alone, so a filtered path is a lost type argument
+	for v in wattrs:
+		comps = [n for n in nodes(v, (ast.DictComp, ast.ListComp, ast.GeneratorExp)) if has_call(n.generators[0].iter, 'seqs.expand') or has_call(n.generators[0].iter, 'items')]
+		filtered = [unparse(i)[:100] for n in comps for g in n.generators for i in g.ifs]
+		ra.check(not filtered, 'writer-expand-total', s.where, f'serialize writes only the flattened attr paths that satisfy {filtered}: the omitted paths (nested type arguments) cannot be restored by _deserialize_attrs, which rebuilds the nesting from the written paths alone', unparse(v)[:200])
 	da = c.method('_deserialize_attrs')
 	if da is None:
 		raise AnalysisError('_deserialize_attrs vanished')
